@@ -165,6 +165,8 @@ def main(argv=None):
             undecided.append((u.name, r['out_of_reach']))
         if not r['obligations'] and not r['out_of_reach'] and not u.bounded:
             errors.append((u.name, 'vacuity: unit generated zero obligations (paths=%d)' % r['paths']))
+        elif u.level == 'property' and not r['out_of_reach'] and not any(o['kind'] not in ('helper', 'pre') for o in r['obligations']):
+            errors.append((u.name, 'vacuity: property-level unit produced no property clause (only loop/precondition obligations): its clauses were never reached'))
         solver_secs += r.get('solver_secs', 0)
         for o in r['obligations']:
             if u.bounded:
@@ -280,6 +282,8 @@ def main(argv=None):
         return 1 if violations else (3 if errors else 0)
     proved_all = (n_obl > 0 and n_dis == n_obl and not undecided and not errors)
     level = 'proof' if proved_all else 'other'
+    if getattr(mod, 'LEVEL', None):
+        level = mod.LEVEL if proved_all else 'other'
     write_evidence(prop, a.tier, seed, level, res, n_obl, n_dis, by_backend, solver_secs, samples, twin_report, twin_cases, twin_eval,
                    known_lines, violations, undecided, helper_open, errors, reran, wall, mod)
     print('%s: obligations=%d discharged=%d undecided=%d twin_cases=%d known_findings=%d violations=%d wall=%.1fs level=%s' %
